@@ -5,6 +5,7 @@ mod arcstr;
 mod biarc;
 mod driver;
 mod mutex;
+mod shm;
 
 #[global_allocator]
 static ALLOC: vsched::alloc::TrackAlloc = vsched::alloc::TrackAlloc;
@@ -40,6 +41,7 @@ fn main() {
         "mutex" => mutex::run(&args),
         "arcstr" => arcstr::run(&args),
         "biarc" => biarc::run(&args),
+        "shm" => shm::run(&args),
         s => vrt::die(&format!("unknown subcommand {s}")),
     }
 }
